@@ -58,6 +58,21 @@ def img_v7_clean(rng):
     img = put(img, l['O7_TIME1'], rb(rng, 16))
     return img
 
+def img_v7_maxfields(rng):
+    """a clean record whose text fields are filled to the last byte (no terminator inside the field): long MQTT password in
+    LocationPwd/Password, 256-byte Email/Username, ... — the corners of the long-password workaround of the configuration page"""
+    l = L(); img = img_v7_clean(rng); full = []
+    def fillf(f, n):
+        nonlocal img
+        img = put(img, l['O7_' + f], bytes(rng.choice(b'abcdefghijklmnopqrstuvwxyz0123456789') for _ in range(l[n]))); full.append(f)
+    if rng.random() < 0.85: fillf('LOCATIONPWD', 'LOCPWD_SIZE')
+    if rng.random() < 0.7: fillf('EMAIL', 'EMAIL_SIZE')
+    elif rng.random() < 0.5:      # name + terminator + overflow part of a long password behind it
+        n = rng.randrange(1, 200); img = put(img, l['O7_EMAIL'], bytes(rng.choice(b'abcxyz') for _ in range(n)) + b'\0' + bytes(rng.choice(b'PQRS') for _ in range(l['EMAIL_SIZE'] - n - 1 - rng.choice([0, 0, 1, 5]))))
+    for f, n in (('SERVER', 'SERVER_SIZE'), ('WIFI_SSID', 'SSID_SIZE'), ('WIFI_PWD', 'WPWD_SIZE')):
+        if rng.random() < 0.3: fillf(f, n)
+    return img
+
 def img_v6(rng, idmode='ok'):
     l = L(); img = rb(rng, l['V6_SIZE'])
     g, k = identity(rng, idmode)
@@ -150,7 +165,12 @@ def http_post(rng, kind='full'):
     if rng.random() < 0.5: f.append(b'lid=%d' % rng.randrange(1, 99999))
     if rng.random() < 0.3: f.append(b'led=%d' % rng.randrange(0, 3))
     if rng.random() < 0.3: f.append(b'upd=1')
+    if kind == 'blankpwd':           # password field blank or absent ("keep the stored password"); other fields sometimes blank too
+        f[0] = b'pwd='
+        if rng.random() < 0.3: f[2] = b'wpw='
+        if rng.random() < 0.3: f[4] = b'eml=' + bytes(rng.choice(b'abc') for _ in range(rng.choice([1, 254, 255, 256, 300]))) 
     rng.shuffle(f)
+    if kind == 'blankpwd' and f[-1] == b'pwd=': f[0], f[-1] = f[-1], f[0]
     if kind == 'get': return b'GET / HTTP/1.1\r\nHost: 192.168.4.1\r\n\r\n'
     if kind == 'few': f = f[:rng.randrange(1, 4)]            # fewer than four recognised fields: nothing may be saved or committed
     body = b'&'.join(f)
@@ -289,10 +309,12 @@ class C13(F.PropCheck):
             evs += [('FACTORY', [sv], b''), D] + boot()
             if sv == 0: evs += [('SAVECFG', [], b''), D] + boot()
         elif sc == 'post':
-            evs += start_v7(True) if rng.random() < 0.8 else boot()
+            mx = rng.random() < 0.35
+            if mx: evs += [('FLASHIMG', [0], img_v7_maxfields(rng))] + boot(); tags.append('post:maxfields')
+            else: evs += start_v7(True) if rng.random() < 0.8 else boot()
             for _ in range(rng.randrange(1, 3)):
-                if rng.random() < 0.6: evs += self.fault(rng, 3); tags.append('post-fault')
-                req = http_post(rng, rng.choice(['full'] * 4 + ['few', 'get', 'other']))
+                if rng.random() < (0.75 if mx else 0.6): evs += self.fault(rng, 3); tags.append('post-fault')
+                req = http_post(rng, rng.choice(['blankpwd'] * 3 + ['full'] if mx else ['full'] * 4 + ['blankpwd', 'few', 'get', 'other']))
                 evs += [('POST', [len(req)], req), D]
             evs += boot()
         return evs, tags
